@@ -21,6 +21,8 @@ CLAIMED = {
    text='Each validator is its own OS process forked from the pristine image; activation of 1-3 conforming soft forks is an event in each node history (or never happens, or is attempted with invalid arguments, or is lost by a crash-restart). Closed-form NOP probes, fork transactions and generated programs with the forked code nested to depth 3 are delivered to every node with seeded delay, duplication and reordering, so the same bytes meet a node before and after its activation. Checked at every delivery and over the history: NOP semantics, exact fork-transaction verdicts, accept under S implies accept under every subset of S, one bytecode across spellings and versions, reachability by name and aliases, failed activations change nothing. Exploration is the right level: the property is about version skew across a network, which only the simulator can schedule.'),
  'C17': dict(section='3.4', technique='deterministic simulation: seeded two-party adapter exchanges (signer, counterparty, man-in-the-middle, validator) over a faulty channel (single-bit corruption of sa/R/T/X/m, drop, duplicate, misroute, splice) with crash-restart of the counterparty; algebraic reference via libsodium and Ed25519 verification as oracles',
    text='The exchange a user relies on is simulated: B offers T, A returns an adapter bound to (X, T, message), B verifies it now and decrypts it later, publication reveals t to A. Five protocol variants (two-/three-script tools flows, deprecated single lock, raw PUBLIC and PRIVATE instructions), six tweak-scalar classes, messages 0-512 bytes. The channel corrupts single bits of each of the five check inputs, drops, duplicates, misroutes and splices adapters; B crashes between decrypting and publishing; M publishes the adapter itself, R+T with sa, and decryptions under wrong scalars before t is revealed. Invariants V1-V7 (completeness, detection, soundness proper: a passing check implies a valid signature after decryption, decryption value, extraction, only-t-decrypts, builder composition). Exploration is the right level for the protocol ordering and corruption faults; edge scalars and message sizes enter as swarm knobs.'),
+ 'C18': dict(section='3.5', technique='deterministic discrete-event simulation of the n-party AMHL protocol: seeded message delay / drop / duplicate / reorder / single-bit corruption / partitions, party crash-restart and stalls, adversarial claim attempts with every scalar seen so far; algebraic reference (independent point sums mod L) and ledger-history checks incl. bounded liveness after the last fault',
+   text='1-2 concurrent chains of 2-8 payers are set up by the real setup_amhl / AMHL.setup and executed as a message-passing protocol (views, adapters, acks, ledger publications) by party stubs with retransmission and persistence, under a seeded faulty network and party crashes. Invariants A1-A6: tweak points are prefix sums, honest views and adapters validate, release yields exactly the left prefix sum and a valid signature, a claim is accepted iff its scalar opens that hop (attackers use extracted scalars, sums, differences, other-chain and neighbour shares, adapters as signatures), claims are strictly right-to-left, and the cascade completes within a bounded number of rounds after the last fault. Exploration is the right level: the property quantifies over release orders and histories that only a controlled network and crash schedule can produce.'),
 }
 NA = {
  'C01': 'verdict is a function of (script list, cache, limits) computed in one synchronous call; no clock, schedule, fault or history to simulate (its never-raises clause is only carried as an auxiliary probe)',
